@@ -615,9 +615,7 @@ func (f *frame) alloc(x *ssa.Alloc) error {
 	}
 	f.vals[x] = &Val{T: ref, Typ: x.Type()}
 	if f.c != nil {
-		f.e.Defs.noteFunc("preexisting", []*Sort{SRef}, SBool)
-		f.c.assume(Not(App("preexisting", SBool, ref)))
-		f.c.assume(Not(Eq(ref, f.e.nilRef())))
+		f.noteAlloc(ref)
 		for _, p := range f.allRefParams() {
 			f.c.assume(Not(Eq(ref, p)))
 		}
@@ -1067,11 +1065,7 @@ func (f *frame) makeMap(x *ssa.MakeMap) error {
 	}
 	ref := Const(fmt.Sprintf("alloc!%s%s", f.prefix, x.Name()), SRef)
 	f.vals[x] = &Val{T: ref, Typ: x.Type()}
-	if f.c != nil {
-		f.e.Defs.noteFunc("preexisting", []*Sort{SRef}, SBool)
-		f.c.assume(Not(App("preexisting", SBool, ref)))
-		f.c.assume(Not(Eq(ref, f.e.nilRef())))
-	}
+	f.noteAlloc(ref)
 	ds := f.e.Sorts.ArrOf(ks, SBool)
 	arr := f.get(f.st, dk, f.e.Sorts.ArrOf(SRef, ds))
 	f.st.m[dk] = Store(arr, ref, &Term{Op: "constarr", Sort: ds, Args: []*Term{TFalse}})
